@@ -284,6 +284,8 @@ class NumEval:
                 return monotone_map(q, _floor, _floor)
             raise NumError('floor division by a value that may be <= 0')
         if op == '%':
+            if a.lo == a.hi and b.lo == b.hi and b.lo > 0 and not math.isinf(a.lo):
+                return const(a.lo % b.lo)
             if b.lo > 0:
                 hi = b.hi
                 return AV(0.0, hi, {x: None for x in a.inputs() | b.inputs()})
@@ -579,6 +581,10 @@ class NumEval:
                 bind[p] = ('const', dv.value)
         return self.function_value(fn, bind, d - 1)
 
+    def ev_path(self, p, d: int) -> AV:
+        """value returned by one path (hook: subclasses may need the path's events)"""
+        return self.ev(p.retval, d)
+
     def function_value(self, fn: FunctionInfo, bind: Dict[str, Term], d: int) -> AV:
         """Join over the returning paths, with path-condition analysis."""
         ps = [p for p in paths(self.repo, fn, bind) if p.status == 'return']
@@ -605,7 +611,7 @@ class NumEval:
                     e.kind == 'loopend' for q in ps for e in q.events):
                 # loops over non-empty constant collections run at least once
                 continue
-            vals.append((self.ev(p.retval, d), conds))
+            vals.append((self.ev_path(p, d), conds))
         if not vals:
             raise NumError(f'{fn.qualname}: every path is infeasible')
         r = vals[0][0]
@@ -620,7 +626,8 @@ class NumEval:
                 other_cond = [c for v, cs in vals for c, _ in cs
                               if x in self.term_inputs(c, d) and not self.zero_guard(c, x, d)]
                 if zero_paths and rest and not other_cond and all(
-                        v.lo >= 0 and v.d(x) == 1 for v in rest):
+                        v.lo >= 0 and v.d(x) in (0, 1) for v in rest):
+                    # 0 at x == 0, then a non-negative non-decreasing (possibly constant) value
                     r.mono[x] = 1
                 else:
                     r.mono[x] = None
